@@ -1301,6 +1301,10 @@ theorem final_chainSt (env : Env) (ctx : Cfg) (henv : EnvOK env) :
           | none => simp [hT] at hev
           | some T =>
             simp only [hT] at hev
+            cases hL : T.loadErr with
+            | some kk => simp [hL] at hev
+            | none =>
+            simp only [hL] at hev
             have hst1 : ∀ fs, ChainSt env (chain ++ [t])
                 { blocks := appendBlocks st.blocks T.blocks, depth := st.depth, loaded := t :: st.loaded,
                   frames := fs } := by
